@@ -539,3 +539,26 @@ def cval(n):
         else:
             return None
     return None
+
+
+def extract_fixture(name):
+    """Analyse /verif/selftest/fixtures/src/<name>.cpp as a one-TU program rooted
+    at the fixtures directory (positive controls for zero-count rules)."""
+    ensure_tool()
+    root = os.path.join(VERIF, "selftest", "fixtures")
+    src = os.path.join(root, "src", name + ".cpp")
+    key = hashlib.sha256((sha(TOOL) + sha(src)).encode()).hexdigest()[:20]
+    out = os.path.join(CACHE, "fixture-%s-%s.json" % (name, key))
+    os.makedirs(CACHE, exist_ok=True)
+    if not os.path.exists(out):
+        flags = ["-std=c++11", "-I" + os.path.join(REPO, "include"), "-Wno-everything", "-resource-dir", RESOURCE_DIR]
+        tmp = out + ".tmp%d" % os.getpid()
+        rc, log = _run_batch(([src], tmp, root, flags))
+        if rc != 0:
+            raise AnalysisBroken("fixture %s does not compile: %s" % (name, log[-2000:]))
+        os.replace(tmp, out)
+    db = DB(root, "fixture", key, [src])
+    with open(out) as f:
+        db.merge(json.load(f))
+    db.finish()
+    return db
